@@ -5,6 +5,7 @@
   xorSkipsParentheses / bodyEscapesKeywords   the expression printer for derived attributes and WHERE rules (ATTRIBUTE_INITIALIZER*__out,
                    WHEREPrint): operator texts, parenthesisation and literal cases pinned; the two flags say whether XOR hands previous_op
                    down and whether identifiers / rule labels are keyword-escaped
+  repeatBoundInclusive   LOOPpyout writes range(a, (b) + (1 if (s) > 0 else -1), s) for REPEAT i := a TO b BY s (else range(a, b, s))
   runtimePackage   the package the emitted module imports its runtime from (classes_wrapper_python.cc preamble)
   sortsBases       LIBdescribe_entity sorts the supertype list with LISTsort(…, cmp_python_mro) before emitting the bases
   ancestorsLast    LIBdescribe_entity emits the bases through python_base_order( supertypes )
@@ -177,6 +178,23 @@ def extract(repo):
                  "ATTRIBUTE_INITIALIZER_out( w->expr, level + 1, file );"):
         if need not in cs:
             raise ValueError("expression printer no longer as modelled: " + need[:70])
+    # ---- REPEAT with an increment control
+    i = c.find("\nLOOPpyout( struct Loop_ *loop, int level, FILE * file ) {")
+    j = c.find("\nSTATEMENTlist_out( Linked_List stmts, int indent_level, FILE * file ) {", i)
+    if i < 0 or j < 0:
+        raise ValueError("LOOPpyout not found")
+    lp = sq(c[i:j])
+    head = 'fprintf( file, "for %s in range(", v->name->symbol.name ); EXPRESSION_out( loop->scope->u.incr->init, 0 , file ); fprintf( file, "," ); '
+    excl = head + 'EXPRESSION_out( loop->scope->u.incr->end, 0 , file ); fprintf( file, "," ); EXPRESSION_out( loop->scope->u.incr->increment, 0 , file ); fprintf( file, "):\\n" );'
+    incl = (head + 'fprintf( file, "(" ); EXPRESSION_out( loop->scope->u.incr->end, 0 , file ); fprintf( file, ") + (1 if (" ); '
+            'EXPRESSION_out( loop->scope->u.incr->increment, 0 , file ); fprintf( file, ") > 0 else -1)," ); '
+            'EXPRESSION_out( loop->scope->u.incr->increment, 0 , file ); fprintf( file, "):\\n" );')
+    if excl in lp:
+        rep_incl = False
+    elif incl in lp:
+        rep_incl = True
+    else:
+        raise ValueError("LOOPpyout: the range() of an increment control is written in neither of the two modelled ways")
     lst = ", ".join('"%s"' % i for i in items)
     out = f"""-- GENERATED by tools/extract.d/genpy.py from src/exp2python/src/classes_python.c, classes_wrapper_python.cc
 namespace StepModel.Generated
@@ -191,6 +209,9 @@ without parentheses (`p != q != r`, which Python reads as a chained comparison) 
 def xorSkipsParentheses : Bool := {"true" if xor_skips else "false"}
 /-- attribute references in derived-attribute / WHERE expressions and WHERE-rule labels get the keyword underscore -/
 def bodyEscapesKeywords : Bool := {"true" if body_esc else "false"}
+/-- `LOOPpyout` writes the stop value of `range()` as `(b) + (1 if (s) > 0 else -1)` (the bound is the last value of the
+loop variable); `false`: the bound itself -/
+def repeatBoundInclusive : Bool := {"true" if rep_incl else "false"}
 /-- the package named in the emitted import preamble -/
 def runtimePackage : String := "{pk[0]}"
 /-- `LISTsort(supertypes, cmp_python_mro)` is applied before the base classes are emitted -/
